@@ -151,13 +151,17 @@ func (c seamConnector) Driver() driver.Driver                        { return se
 
 type seamDriver struct{}
 
-func (seamDriver) Open(string) (driver.Conn, error) { return nil, errors.New("c11 seam: use the connector") }
+func (seamDriver) Open(string) (driver.Conn, error) {
+	return nil, errors.New("c11 seam: use the connector")
+}
 
 type seamConn struct{ s *seam }
 
-func (c *seamConn) Prepare(string) (driver.Stmt, error) { return nil, errors.New("c11 seam: no Prepare") }
-func (c *seamConn) Close() error                        { return nil }
-func (c *seamConn) Begin() (driver.Tx, error)           { return nil, errors.New("c11 seam: no transactions") }
+func (c *seamConn) Prepare(string) (driver.Stmt, error) {
+	return nil, errors.New("c11 seam: no Prepare")
+}
+func (c *seamConn) Close() error              { return nil }
+func (c *seamConn) Begin() (driver.Tx, error) { return nil, errors.New("c11 seam: no transactions") }
 func (c *seamConn) QueryContext(ctx context.Context, q string, _ []driver.NamedValue) (driver.Rows, error) {
 	cols, rows, err := c.s.run(q)
 	if err != nil {
